@@ -54,6 +54,7 @@ def make(kind, prop, quick, thorough, long_every=30):
         long = ctx.tier == "thorough" and idx % long_every == 0
         cfg = history.Cfg(rng, kind, long=long)
         cfg.use_constructor = rng.random() < 0.3
+        cfg.full_battery = (not long) and rng.random() < (0.05 if ctx.tier == "quick" else 0.2)  # every filter, window and width
         raw = []
         nviol = len(ctx.violations)
         try:
